@@ -24,6 +24,7 @@ type PathOutcome struct {
 	Decisions int
 	Notes     []string
 	Debug     []string
+	Trace     []Event
 }
 
 // NewEngine creates an engine over prog and runs the package initialisers reachable from
@@ -225,6 +226,10 @@ func (e *Engine) RunPath(fn *ssa.Function, args []V, item WorkItem) (out PathOut
 	out.Decisions = len(e.decisions)
 	out.Notes = e.notes
 	out.Debug = e.debugOut
+	if e.rec != nil {
+		out.Trace = e.rec.events
+		e.rec = nil
+	}
 	e.debugOut = nil
 	for _, v := range e.pathVars {
 		out.VarNames = append(out.VarNames, v.Name)
@@ -285,6 +290,7 @@ type ExploreResult struct {
 	SolverErrors []string
 	Samples      []string
 	MaxDecisions int
+	Traces       [][]Event // recorded thread programs (thread-modular mode), one per ok path
 }
 
 // Pool is a set of engines sharing one SSA program.
@@ -382,6 +388,9 @@ func (p *Pool) Explore(fn *ssa.Function, args []int64, opts ExploreOpts) *Explor
 				}
 				for _, c := range out.Covers {
 					res.Covers[c]++
+				}
+				if out.Trace != nil && out.Kind == "ok" {
+					res.Traces = append(res.Traces, out.Trace)
 				}
 				for k, v := range out.KnownHits {
 					res.KnownHits[k] = v
